@@ -32,6 +32,14 @@ for i, d in enumerate(dirs):
     sh("git -C /repo worktree remove --force %s" % wt)
     sh("git -C /repo worktree add --detach %s main" % wt)
     rc, out = sh("git apply --3way %s/patch.diff || git apply %s/patch.diff" % (d, d), cwd=wt)
+    rcd, outd = sh("git diff HEAD --stat", cwd=wt)
+    meta["applies_on_final_main"] = bool(outd.strip()) and rc == 0
+    if not meta["applies_on_final_main"]:
+        meta["checks_final"], meta["caught_by_final"] = {}, []
+        json.dump(meta, open(d + "/meta.json", "w"), indent=1)
+        print(name, "PATCH DOES NOT APPLY on final main:", out[-300:], flush=True)
+        sh("git -C /repo worktree remove --force %s" % wt)
+        continue
     res = {}
     for p in PROPS.get(pid, [pid]):
         tmo = "" if p == pid else "VERIF_NO_WIDEN=1 "
